@@ -578,6 +578,9 @@ def recovery_script(r, idx, fate_vec=None):
         cfg[side]["idle_ms"] = 30000
         cfg[side].pop("keep_alive_ms", None)
         cfg[side]["cc"] = r.choice(CC_MENU)
+        if r.random() < 0.2:
+            # a configured sending rate: the pacer is the limit, not the window
+            cfg[side]["max_bytes_per_sec"] = r.choice([20000, 50000, 200000, 1000000, 5000000])
         if r.random() < 0.25:
             cfg[side]["ack_freq"] = True
             cfg[side]["ack_freq_threshold"] = r.choice([0, 1, 2, 5, 20])
